@@ -6,11 +6,13 @@ from vlib import tlc
 
 def run(ctx):
     ctx.level = "model_checking"
-    rounds = [(150, ctx.seed)] if ctx.quick() else [(400, ctx.seed + k) for k in range(4)]
+    rounds = [(150, ctx.seed, ())] if ctx.quick() else [(400, ctx.seed + k, ()) for k in range(4)]
+    # lagging receivers: backlogs of tens of MiB (or thousands of messages) on one channel before anything is received
+    rounds.append((6 if ctx.quick() else 30, ctx.seed + 100, ("-lag",)))
     states = trans = events = runs = 0
     samples, cfgs = [], []
-    for n, seed in rounds:
-        wd, trace, summary, findings = cf.record(ctx, "s%d" % seed, n, seed)
+    for n, seed, extra in rounds:
+        wd, trace, summary, findings = cf.record(ctx, "s%d" % seed, n, seed, extra=extra)
         for f in findings:
             ctx.violation(f["sig"], "%s | config: %s" % (f["detail"], f["config"]), f)
         r, rejected = cf.validate(ctx, wd, trace)
@@ -59,7 +61,8 @@ def run(ctx):
         "events": events, "configs": cfgs, "invariants": ["PrefixOrder", "DrainBeforeEnd"],
         "explanation": "each run: real server + real client (1-2 connections) over loopback, 1-6 channels, both directions at once, "
                        "1-2 concurrent senders per direction, window 16/17/64/4096/1 MiB, write queue 4 KiB-1 MiB, buffers 16 B-32 KiB, "
-                       "lz4 on/off, message sizes 8 B .. 3 windows, payload on opening and closing frames, early-ending receivers; "
+                       "lz4 on/off, message sizes 8 B .. 3 windows, payload on opening and closing frames, early-ending receivers; plus runs with lagging receivers (windows 1/16/64 MiB, 1-5 MiB messages or thousands of tiny ones, "
+                       "the receiver starts only after the peer has sent everything, backlogs up to 48 MiB per channel and direction); "
                        "every payload byte is checked before the receive event is logged. TLC consumes the events and places the "
                        "internal Commit steps; a trace is accepted only if every event is explained (POSTCONDITION on the high-water "
                        "mark). Calls that do not return within 10 s are violations (bounded-time liveness).",
